@@ -14,6 +14,7 @@ import (
 	sdkmath "cosmossdk.io/math"
 	sdk "github.com/cosmos/cosmos-sdk/types"
 	authtypes "github.com/cosmos/cosmos-sdk/x/auth/types"
+	govtypes "github.com/cosmos/cosmos-sdk/x/gov/types"
 
 	coinswapkeeper "github.com/Canto-Network/Canto/v8/x/coinswap/keeper"
 	coinswaptypes "github.com/Canto-Network/Canto/v8/x/coinswap/types"
@@ -765,6 +766,52 @@ func (s *csSuite) newParams() {
 	s.w.App.CoinswapKeeper.SetParams(s.w.Ctx, p)
 }
 
+// opDiscardedParams: a governance proposal whose first message is a coinswap MsgUpdateParams that LOOSENS the risk limits
+// (per-pool cap x1000, every per-swap maximum x1000, every denomination whitelisted) through the real handler, and whose later
+// message fails: the handler succeeds on a branch that is then discarded. Nothing may remain, in the store or in process
+// memory: the parameters observed through the keeper afterwards are the enacted ones, and the orders that follow are
+// bounded by them (the driver expects "rejected, nothing changed" and flags C09 discarded_caps_unchanged otherwise).
+func (s *csSuite) opDiscardedParams() {
+	w := s.w
+	p := w.App.CoinswapKeeper.GetParams(w.Ctx)
+	np := p
+	np.MaxStandardCoinPerPool = p.MaxStandardCoinPerPool.MulRaw(1000)
+	coins := sdk.Coins{}
+	for _, d := range csDenoms {
+		if d == s.std {
+			continue
+		}
+		m := p.MaxSwapAmount.AmountOf(d)
+		if m.IsZero() {
+			m = pow10(24)
+		} else {
+			m = m.MulRaw(1000)
+		}
+		coins = coins.Add(sdk.NewCoin(d, m))
+	}
+	np.MaxSwapAmount = coins
+	if err := np.Validate(); err != nil {
+		s.stat["discarded-params:invalid"]++
+		return
+	}
+	auth := authtypes.NewModuleAddress(govtypes.ModuleName).String()
+	preMod, pre := s.modState(), w.Snapshot()
+	hok := false
+	out := w.Deliver(func(ctx sdk.Context) error {
+		_, err := s.ms.UpdateParams(ctx, &coinswaptypes.MsgUpdateParams{Authority: auth, Params: np})
+		if err == nil {
+			hok = true
+			return fmt.Errorf("a later message of the transaction failed")
+		}
+		return err
+	})
+	if hok {
+		out.Class = "later"
+	}
+	s.later = true
+	s.emit("csparams", "loosen=1000", out, "", preMod, pre)
+}
+
 func (s *csSuite) stepTime() {
 	r := s.r
 	d := time.Duration(r.PickInt(0, 1, 500_000_000, 1_000_000_000, 1_500_000_000, 7_000_000_000, 100_000_000_000))
@@ -857,7 +904,11 @@ func runCoinswap(seed uint64, nOps int, outPath string) map[string]int {
 					case k < 16:
 						s.opAutoSwap()
 					default:
-						s.opSend()
+						if s.laterOn && s.r.Intn(5) == 0 {
+							s.opDiscardedParams()
+						} else {
+							s.opSend()
+						}
 					}
 				}()
 				done++
